@@ -49,6 +49,8 @@ class ProfileMachine(Machine):
                 'method': rng.pick(['exact', 'exact', 'center', 'subpixel']),
                 'unit': rng.chance(0.2), 'nan': rng.chance(0.25),
                 'nan_error': rng.chance(0.25),
+                'subpixels': rng.pick([1, 3, 3, 5]),
+                'int_mask': rng.chance(0.15),
                 'center': rng.pick(['in', 'in', 'in', 'edge', 'out'])}
 
     def make_scene(self, rng, cfg):
@@ -87,6 +89,8 @@ class ProfileMachine(Machine):
         steps = [rng.uniform(0.4, 2.5) for _ in range(nr)]
         if rng.chance(0.3):
             steps = [1.0] * nr
+        elif rng.chance(0.15):
+            steps[rng.randrange(nr)] = 0.05        # a very thin bin
         if self.variant == 'radial' and rng.chance(0.5):
             r0 = 0.0
         else:
@@ -117,8 +121,10 @@ class ProfileMachine(Machine):
         cls = RadialProfile if self.variant == 'radial' else CurveOfGrowth
         return cls(data, tuple(sc['xycen']), np.array(sc['radii']),
                    error=err,
-                   mask=dec(sc['mask']).copy() if cfg['mask'] else None,
-                   method=cfg['method'], subpixels=3)
+                   mask=(dec(sc['mask']).astype(
+                       np.uint8 if cfg.get('int_mask') else bool)
+                       if cfg['mask'] else None),
+                   method=cfg['method'], subpixels=cfg.get('subpixels', 3))
 
     # ------------------------------------------------------------------
     def _reference(self, cfg, sc):
@@ -142,9 +148,10 @@ class ProfileMachine(Machine):
                 continue
             ap = CircularAperture(xy, r)
             f, e = ap.do_photometry(data, error=err, mask=mask,
-                                    method=cfg['method'], subpixels=3)
+                                    method=cfg['method'],
+                                    subpixels=cfg.get('subpixels', 3))
             a = ap.area_overlap(data, mask=mask, method=cfg['method'],
-                                subpixels=3)
+                                subpixels=cfg.get('subpixels', 3))
             flux.append(f[0])
             ferr.append(e[0] if err is not None else np.nan)
             area.append(a)
